@@ -37,6 +37,8 @@ func specCellMatches(re *regexp.Regexp, v interface{}) bool {
 		return re.Match(x)
 	case float64:
 		return re.MatchString(searchText(x))
+	case float32:
+		return re.MatchString(searchText32(x))
 	default:
 		return re.MatchString(fmt.Sprintf("%v", x))
 	}
